@@ -311,6 +311,50 @@ def check_float_division(ck, rule, fn, small_names=None, mpf_params=(), nonraw_p
               'operands as the neighbouring formulas do)' % (fn.qualname, ast.unparse(node)[:80],
                                                              node.lineno),
               fn.loc(node), key='%s::float-division' % fn.qualname)
+    # a double that is then *multiplied* inside a function that computes in mpmath: `x = rate +
+    # accel / 2 - half` is a Python float (exact so far), `x * time` is a float product that can
+    # exceed 2^53 before it ever reaches the mpmath sum
+    if mpf_names or any(is_mp_call(nd) for nd in ast.walk(fn.node)):
+        float_names = set()
+
+        def is_float(node):
+            if is_mpf(node):
+                return False
+            if isinstance(node, ast.BinOp) and isinstance(node.op, ast.Div):
+                return True
+            if isinstance(node, ast.Name):
+                return node.id in float_names
+            if isinstance(node, ast.BinOp):
+                return is_float(node.left) or is_float(node.right)
+            if isinstance(node, ast.UnaryOp):
+                return is_float(node.operand)
+            return False
+        changed = True
+        while changed:
+            changed = False
+            for a in assigns:
+                tgts = a.targets if isinstance(a, ast.Assign) else [a.target]
+                if is_float(a.value):
+                    for t in tgts:
+                        if isinstance(t, ast.Name) and t.id not in float_names and \
+                                t.id not in mpf_names:
+                            float_names.add(t.id)
+                            changed = True
+        for node in ast.walk(fn.node):
+            if not (isinstance(node, ast.BinOp) and isinstance(node.op, ast.Mult)):
+                continue
+            for a_, b_ in ((node.left, node.right), (node.right, node.left)):
+                if isinstance(a_, ast.Name) and a_.id in float_names and not is_mpf(b_) and \
+                        not isinstance(b_, ast.Constant):
+                    n += 1
+                    ck.ob(rule, '%s::float-product@%s' % (fn.name, ast.unparse(node)[:50]), False,
+                          '%s: `%s` (line %d) multiplies the Python float %s (it comes from a '
+                          'plain `/`) by another plain number: the product is rounded to 53 bits '
+                          'before it reaches the mpmath sum, and for long fast moves it exceeds '
+                          '2^53 (the neighbouring terms wrap one operand in mpmath.mpf)'
+                          % (fn.qualname, ast.unparse(node)[:80], node.lineno, a_.id),
+                          fn.loc(node), key='%s::float-division' % fn.qualname)
+                    break
     # an mpmath value handed to the math module (or to float()) goes through a 53-bit double:
     # math.floor(mpf) is not mpmath.floor(mpf) once the value needs more than 53 bits
     for node in ast.walk(fn.node):
